@@ -1115,7 +1115,7 @@ package tchannel
 
 //@ func (c *Connection) SendSystemError(id uint32, span Span, err error) (sendErr error)
 //@   nosafety
-//@   modifies allbut InboundCallResponse, Relayer, relayItems, relayItem, messageExchange, messageExchangeSet, connFailed, connFailSys, lookupHit
+//@   modifies allbut InboundCallResponse, Relayer, relayItems, relayItem, messageExchange, messageExchangeSet, connFailed, connFailSys, lookupHit, nadmit, admitted
 //@   defines errAttempts(c) == old(errAttempts(c)) + 1
 //@   property C07 C20
 
